@@ -686,17 +686,24 @@ class Hugr(Mapping[Node, NodeData], Generic[OpVarCov]):
     def _to_serial(self) -> SerialHugr:
         """Serialize the HUGR."""
         node_it = [node for node in self._nodes if node is not None]
+        # non contiguous indices will be erased: live nodes are renumbered in
+        # order, and parents and edge endpoints must follow that renumbering
+        live = [idx for idx, node in enumerate(self._nodes) if node is not None]
+        new_idx = {old: new for new, old in enumerate(live)}
+
+        def _serialize_node(idx: NodeIdx, node: NodeData) -> SerialOp:
+            parent = new_idx[node.parent.idx] if node.parent else idx
+            return SerialOp(root=node.op._to_serial(Node(parent)))  # type: ignore[arg-type]
 
         def _serialize_link(
             link: tuple[_SO, _SI],
         ) -> tuple[tuple[NodeIdx, PortOffset], tuple[NodeIdx, PortOffset]]:
             src, dst = link
             s, d = self._constrain_offset(src.port), self._constrain_offset(dst.port)
-            return (src.port.node.idx, s), (dst.port.node.idx, d)
+            return (new_idx[src.port.node.idx], s), (new_idx[dst.port.node.idx], d)
 
         return SerialHugr(
-            # non contiguous indices will be erased
-            nodes=[node._to_serial(Node(idx, {})) for idx, node in enumerate(node_it)],
+            nodes=[_serialize_node(idx, node) for idx, node in enumerate(node_it)],
             edges=[_serialize_link(link) for link in self._links.items()],
             metadata=[node.metadata if node.metadata else None for node in node_it],
         )
